@@ -586,9 +586,32 @@ impl<'a> Sim<'a> {
 
     /// Execute one op. Ops on empty slots are no-ops (so any subsequence of a history is executable).
     pub fn exec(&mut self, top: &TOp) -> Result<(), Stop> {
-        let r = self.exec_inner(top);
+        let mut r = self.exec_inner(top);
+        if r.is_ok() && self.prop != Prop::C02 {
+            // every engine, not only the one the op touched: a clone that shares state with its
+            // source, or a setter that reaches into a neighbour, shows up here
+            r = self.check_all_models();
+        }
         self.op_index += 1;
         r
+    }
+
+    fn check_all_models(&mut self) -> Result<(), Stop> {
+        let oracle = match self.prop {
+            Prop::C19 => "C19.weights-model",
+            Prop::C20 => "C20.setter-model",
+            _ => "C03.settings-model",
+        };
+        for e in 0..self.engines.len() {
+            if self.engines[e].is_some() {
+                let slot = self.engines[e].as_ref().unwrap();
+                self.stats.comparisons += 1;
+                if let Some((field, text)) = slot.model.compare(&slot.eng.condition, true) {
+                    return Err(self.viol(oracle, format!("getter-mismatch:{}", field), format!("engine slot e{}: {}", e, text)));
+                }
+            }
+        }
+        Ok(())
     }
 
     fn exec_inner(&mut self, top: &TOp) -> Result<(), Stop> {
@@ -818,7 +841,7 @@ impl<'a> Sim<'a> {
                 self.stats.probe(&format!("vsnew:{}", expect));
                 if let Some((pos, f, variant)) = mutate {
                     if expect == "metadata" {
-                        self.stats.probe(&format!("vsnew_variant:{}", variant % 3));
+                        self.stats.probe(&format!("vsnew_variant:{}", variant % 5));
                         self.stats.probe(if *pos == 0 { "vsnew_mutated_first_voice" } else if *pos == 1 { "vsnew_mutated_second_voice" } else { "vsnew_mutated_third_or_later_voice" });
                         self.stats.probe(&format!("vsnew_field:{}", f.to_text().split(':').next().unwrap()));
                     }
@@ -1041,6 +1064,26 @@ impl<'a> Sim<'a> {
             }
             if frames == 0 {
                 self.stats.probe("zero_frame_generator");
+            } else if frames == 1 {
+                self.stats.probe("one_frame_generator");
+            }
+            if frames >= 256 {
+                self.stats.probe("generator_256_frames_or_more");
+            }
+            if frames >= 1000 {
+                self.stats.probe("generator_1000_frames_or_more");
+            }
+            {
+                let c = &self.engines[e].as_ref().unwrap().eng.condition;
+                if c.get_phoneme_alignment_flag() {
+                    self.stats.probe("generator_with_alignment");
+                }
+                if c.get_beta() > 0.0 {
+                    self.stats.probe("generator_with_postfilter");
+                }
+                if self.engines[e].as_ref().unwrap().voices.iter().any(|v| matches!(v, VoiceRef::Gen(s) if s.meta.stage > 0)) {
+                    self.stats.probe("generator_on_lsp_voice");
+                }
             }
             if gen.fperiod() != fp {
                 return Err(self.viol("C02.chunk-equals-oneshot", "fperiod-mismatch", format!("generator.fperiod() = {} but the engine's frame period is {}", gen.fperiod(), fp)));
@@ -1257,17 +1300,28 @@ pub fn mutate_meta(v: &mut Voice, f: MetaField, variant: u8) -> bool {
         true
     }
     fn opt(o: &mut Vec<String>, variant: u8) -> bool {
-        match variant % 3 {
+        match variant % 5 {
             0 => o.push("X=1".to_string()),
             1 => {
                 if o.pop().is_none() {
                     return false;
                 }
             }
-            _ => match o.first_mut() {
+            2 => match o.first_mut() {
                 Some(s) => s.push('9'),
                 None => return false,
             },
+            // differences a lossy comparison would miss: trailing blank, order
+            3 => match o.last_mut() {
+                Some(s) => s.push(' '),
+                None => return false,
+            },
+            _ => {
+                if o.len() < 2 || o[0] == o[o.len() - 1] {
+                    return false;
+                }
+                o.reverse();
+            }
         }
         true
     }
@@ -1276,7 +1330,21 @@ pub fn mutate_meta(v: &mut Voice, f: MetaField, variant: u8) -> bool {
         MetaField::FramePeriod => num(&mut v.metadata.frame_period, variant),
         MetaField::NumStates => num(&mut v.metadata.num_states, variant),
         MetaField::NumStreams => num(&mut v.metadata.num_streams, variant),
-        MetaField::StreamType => match variant % 3 {
+        MetaField::StreamType => match variant % 5 {
+            3 => match v.metadata.stream_type.first_mut() {
+                Some(s) => {
+                    *s = s.to_lowercase();
+                    true
+                }
+                None => false,
+            },
+            4 => match v.metadata.stream_type.last_mut() {
+                Some(s) => {
+                    s.push(' ');
+                    true
+                }
+                None => false,
+            },
             0 => match v.metadata.stream_type.last_mut() {
                 Some(s) => {
                     s.push('X');
